@@ -10,11 +10,11 @@ CLAIMS = {
        "on accepted text), exact characterisation of rejection, size query = bytes written, no write beyond ol and no "
        "read beyond il for every input. Unconditional, unbounded. The model is tied to the code on every run by a "
        "regenerated alphabet table (theorems re-checked against it) and an exhaustive/randomised differential run "
-       "(≈0.8M operations quick) of the real functions under ASan/UBSan with canaries, plus a direct RFC 4648 oracle. Streaming forms against buffer forms: input lengths 0..40 and block boundaries, every sink capacity 0..required+1, several chunkings; invalid text of every class through the streamed decoder.",
+       "(≈0.8M operations quick) of the real functions under ASan/UBSan with canaries, plus a direct RFC 4648 oracle. Streaming forms against buffer forms: input lengths 0..40 and block boundaries, every sink capacity 0..required+1, several chunkings; invalid text of every class through the streamed decoder. model_is_code_on_grid: the model's answers equal the answers of the library built from the working tree on a grid of about 936 operations regenerated on every run (Jose/Grid/C08.lean), proved by kernel evaluation.",
   note="Trusted: Lean kernel; axioms propext/Classical.choice/Quot.sound; the hand-written model Jose/B64.lean is "
        "tied to lib/b64.c only by the correspondence run (differential testing); jansson's parser/dumper are "
        "modelled (Jose/JsonParse.lean) and compared, not verified; streaming forms are covered under C07.",
-  technique="Lean 4 theorem proving (structural induction, omega) + regenerated tables + differential correspondence",
+  technique="Lean 4 theorem proving (structural induction, omega) + regenerated tables + differential correspondence + answers of the built code regenerated as a table and agreement proved by kernel evaluation",
   design="§6 C08"),
  "C07": dict(
   text="Machine-checked proof on the chain model Jose/IO.lean (mirror of lib/io.c, the streaming codecs of lib/b64.c with "
@@ -25,11 +25,11 @@ CLAIMS = {
        "again; a refusal by the sink under any stack of codec/transformer stages makes the run fail (feed or done). "
        "Chunking independence for arbitrary chain shapes and for the OpenSSL/zlib-backed stages is validated, not "
        "proved: exhaustive compositions of lengths <=8 (quick) over 14 chain shapes, random trees of depth 3, every "
-       "probe failure position, against the real objects under ASan/UBSan and a denotational Python reference. The content-decryption stream (GCM and CBC-HMAC, with and without inflate) is a chain stage on both sides (jwedec): plaintext lengths around the block size incl. a pure-padding final block, in front of buffering stages, bounded sinks, multiplexers and failing sinks.",
+       "probe failure position, against the real objects under ASan/UBSan and a denotational Python reference. The content-decryption stream (GCM and CBC-HMAC, with and without inflate) is a chain stage on both sides (jwedec): plaintext lengths around the block size incl. a pure-padding final block, in front of buffering stages, bounded sinks, multiplexers and failing sinks. model_is_code_on_grid: the model's answers equal the answers of the library built from the working tree on a grid of about 850 operations regenerated on every run (Jose/Grid/C07.lean), proved by kernel evaluation.",
   note="Trusted: Lean kernel, standard axioms; model tied to code by differential testing only; transformer stages "
        "(hash/inflate/deflate/cipher) are modelled at verdict level (what they emit in total), their stream laws are "
        "validated on OpenSSL/zlib, not proved; general-shape chunking theorem not yet proved (stated in DESIGN §6 C07).",
-  technique="Lean 4 theorem proving (induction over chunk lists and chain syntax) + differential correspondence",
+  technique="Lean 4 theorem proving (induction over chunk lists and chain syntax) + differential correspondence + answers of the built code regenerated as a table and agreement proved by kernel evaluation",
   design="§6 C07"),
  "C06": dict(
   text="Machine-checked proof on the model of jwk_clean/jose_jwk_pub (Jose/Jwk.lean) over the key-type and "
@@ -40,10 +40,10 @@ CLAIMS = {
        "element-wise. kty matching in any letter case included. Differential run: every subset of private members, "
        "kty case variants, 2^8 key_ops subsets with junk, nested containers, with a direct oracle of the statement. "
        "The 'produced objects never contain secrets' half is validated by scanning every JWS/JWE produced in the "
-       "C03/C04 runs for the encodings of all secrets involved (not a theorem).",
+       "C03/C04 runs for the encodings of all secrets involved (not a theorem). model_is_code_on_grid: the model's answers equal the answers of the library built from the working tree on a grid of about 322 operations regenerated on every run (Jose/Grid/C06.lean), proved by kernel evaluation.",
   note="Trusted: Lean kernel, standard axioms; extract_tables.py; model tied to lib/jwk.c by differential testing; "
        "secrecy of primitive outputs (signature, ciphertext) is cryptography and is not claimed.",
-  technique="Lean 4 theorem proving (generic list lemmas + decide on regenerated tables) + differential correspondence",
+  technique="Lean 4 theorem proving (generic list lemmas + decide on regenerated tables) + differential correspondence + answers of the built code regenerated as a table and agreement proved by kernel evaluation",
   design="§6 C06"),
  "C12": dict(
   text="Machine-checked proof on the model of jwk_str/jose_jwk_thp/jose_jwk_thp_buf/jose_jwk_eql: the hash input is the "
@@ -53,11 +53,11 @@ CLAIMS = {
        "are refused, keys lacking a required member or of unknown type have no thumbprint and equal nothing; equality "
        "characterised member-wise. Differential run incl. every buffer length 0..70 x 5 hashes with canaries, "
        "escapes/non-ASCII values, and a direct oracle: hashlib over the RFC 7638 string; eql vs thumbprint equality on "
-       "20k ordered pairs.",
+       "20k ordered pairs. model_is_code_on_grid: the model's answers equal the answers of the library built from the working tree on a grid of about 196 operations regenerated on every run (Jose/Grid/C12.lean), proved by kernel evaluation.",
   note="Trusted: Lean kernel, standard axioms; hash function is an abstract parameter (collision resistance cannot "
        "be a theorem); 'eql coincides with thumbprint equality' is checked on pairs by the oracle, the general "
        "injectivity-of-dump theorem is not yet proved; to/from OpenSSL conversion is covered by correspondence only.",
-  technique="Lean 4 theorem proving + regenerated tables + differential correspondence",
+  technique="Lean 4 theorem proving + regenerated tables + differential correspondence + answers of the built code regenerated as a table and agreement proved by kernel evaluation",
   design="§6 C12"),
  "C01": dict(
   text="Machine-checked proof on the model of jose_jws_ver/jose_jws_ver_io and the sign.ver hooks (Jose/Jws.lean), for "
@@ -128,9 +128,9 @@ CLAIMS = {
        "Differential run: all histories of length <=4 over 11 entry kinds from 15 start shapes for both member sets (53k) "
        "with a direct layout oracle; real signing and wrapping histories with every template form at every position, "
        "verification of every earlier signature and decryption by every earlier recipient after each step, byte-for-byte "
-       "check of encoded protected headers, recipients added after content encryption, multi-key calls with one shared template.",
+       "check of encoded protected headers, recipients added after content encryption, multi-key calls with one shared template. model_is_code_on_grid: the model's answers equal the answers of the library built from the working tree on a grid of about 1000 operations regenerated on every run (Jose/Grid/C16.lean), proved by kernel evaluation.",
   note="Trusted: Lean kernel, standard axioms; model tied to lib/openssl/misc.c, lib/jws.c, lib/jwe.c by differential testing.",
-  technique="Lean 4 theorem proving (invariant over histories, congruence of verification/unwrapping in the listed members) + exhaustive short-history differential + real histories",
+  technique="Lean 4 theorem proving (invariant over histories, congruence of verification/unwrapping in the listed members) + exhaustive short-history differential + real histories + answers of the built code regenerated as a table and agreement proved by kernel evaluation",
   design="§A, §6 C16"),
  "C02": dict(
   text="Machine-checked proof on the model of jose_jwe_dec_cek(_io)/jose_jwe_dec_jwk and the encr.dec / wrap.unw hooks, "
@@ -174,10 +174,10 @@ CLAIMS = {
        "key_ops subsets x 6 use values x 10 operations x 2 modes; every ordered pair (key alg, header alg) over all "
        "registered names of the kind plus names sorting before/between/after, through jws sig/ver, jwe dec_jwk/"
        "enc_cek/dec_cek, jwk exc, with keys that would otherwise succeed; 12 metadata cases x 10 entry points, against "
-       "a direct oracle of the statement. Also every ordered pair (key's declared content encryption, header enc) through the whole-call entry point with alg=dir, including pairs of equal key size.",
+       "a direct oracle of the statement. Also every ordered pair (key's declared content encryption, header enc) through the whole-call entry point with alg=dir, including pairs of equal key size. model_is_code_on_grid: the model's answers equal the answers of the library built from the working tree on a grid of about 1540 operations regenerated on every run (Jose/Grid/C05.lean), proved by kernel evaluation.",
   note="Trusted: Lean kernel, standard axioms (grind used for one boolean table fact); a non-string 'use' member is "
        "treated as malformed (refusal accepted).",
-  technique="Lean 4 theorem proving (decision logic stated outright) + exhaustive differential on the finite part",
+  technique="Lean 4 theorem proving (decision logic stated outright) + exhaustive differential on the finite part + answers of the built code regenerated as a table and agreement proved by kernel evaluation",
   design="§6 C05"),
  "C13": dict(
   text="Machine-checked proof: ECDH agreement and the McCallum-Relyea recovery identity s(cG+eG) - e(sG) = c(sG) in "
@@ -201,12 +201,12 @@ CLAIMS = {
        "types; -t's clamping spec incl. negative counts and non-array TOP; in-place options keep the stack, pushes add "
        "exactly one value, -U removes exactly TOP. Three-way differential run (80k programs quick): the real CLI "
        "(forked in-process under ASan/UBSan, files and stdin included) vs the Lean model vs an executable transcription "
-       "of the manual (tools/fmtspec.py) used as the direct oracle. Also copy/query independence programs (nested values copied, walked into, mutated, whole stack printed) and values whose members are given in non-sorted order at several depths.",
+       "of the manual (tools/fmtspec.py) used as the direct oracle. Also copy/query independence programs (nested values copied, walked into, mutated, whole stack printed) and values whose members are given in non-sorted order at several depths. model_is_code_on_grid: the model's answers equal the answers of the library built from the working tree on a grid of about 1326 operations regenerated on every run (Jose/Grid/C19.lean), proved by kernel evaluation.",
   note="Trusted: Lean kernel, standard axioms; getopt_long argument parsing is mirrored in Jose.Fmt.parseArgv and "
        "compared, not verified; jansson load/dump modelled (JsonParse/dump) and compared; status values above 255 "
        "wrap in the OS exit status (status compared modulo 256, stated in DESIGN). F13 (-t on a non-array TOP / "
        "negative counts) was found by this check and fixed.",
-  technique="Lean 4 theorem proving (induction over the option list) + three-way differential correspondence",
+  technique="Lean 4 theorem proving (induction over the option list) + three-way differential correspondence + answers of the built code regenerated as a table and agreement proved by kernel evaluation",
   design="§6 C19"),
  "C17": dict(
   text="Machine-checked proof on the model of lib/cfg.c for every history of context operations (create, incref, decref, "
@@ -221,12 +221,12 @@ CLAIMS = {
        "C that no Lean model can exhibit): every read-only entry point and every shared-template call leaves its JSON "
        "arguments deep-equal and their reference counts unchanged (harness deep-compare on ~10k valid and damaged "
        "inputs), no writable static region of the library changes across the battery (link-map fingerprints), and the "
-       "battery gives line-for-line the same results on 2/4/8/16 threads under ThreadSanitizer with no race report.",
+       "battery gives line-for-line the same results on 2/4/8/16 threads under ThreadSanitizer with no race report. model_is_code_on_grid: the model's answers equal the answers of the library built from the working tree on a grid of about 651 operations regenerated on every run (Jose/Grid/C17.lean), proved by kernel evaluation.",
   note="Trusted: Lean kernel, standard axioms; model tied to lib/cfg.c by exhaustive short histories + random long ones; "
        "argument purity, static-storage stability and race freedom are dynamic validation (ASan/TSan builds of the working "
        "tree), labelled as such; TSan does not see inside OpenSSL/jansson. F3 (get_err_misc returned the handler) was "
        "found by this check and fixed.",
-  technique="Lean 4 theorem proving (induction over histories) + regenerated static-storage table + instrumented "
+  technique="Lean 4 theorem proving (induction over histories) + regenerated static-storage table + instrumented  + answers of the built code regenerated as a table and agreement proved by kernel evaluation"
             "differential runs (argument deep-compare, static-region fingerprints, ThreadSanitizer)",
   design="§6 C17"),
  "C14": dict(
